@@ -622,9 +622,10 @@ pub fn run_ops<G: AffineRepr, CS: RoleCS<G>>(cs: &mut CS, ops: &[Op], shr: &Rc<R
                 sh.set_var(lv, l);
                 sh.set_var(rv, r);
                 sh.set_var(ov, o);
-                // the two implicit constraints  lc - l_var = 0,  lc - r_var = 0
-                sh.con_vals.push(-gl);
-                sh.con_vals.push(-gr);
+                // the two implicit constraints  lc - l_var = 0,  lc - r_var = 0: their values under the tracked assignment
+                // (-gl, -gr on the recording side; a deviating constant or coefficient on the replaying side shows up here)
+                sh.con_vals.push(va + ca - l);
+                sh.con_vals.push(vb + cb - r);
                 ta.push((VK::L, i, -FOf::<G>::one()));
                 tb.push((VK::R, i, -FOf::<G>::one()));
                 sh.cons.push((ta, ca));
@@ -721,8 +722,8 @@ pub fn run_ops<G: AffineRepr, CS: RoleCS<G>>(cs: &mut CS, ops: &[Op], shr: &Rc<R
                 sh.set_var(lv, l);
                 sh.set_var(rv, r);
                 sh.set_var(ov, o);
-                sh.con_vals.push(-gl);
-                sh.con_vals.push(-gr);
+                sh.con_vals.push(va + ca - l);
+                sh.con_vals.push(vb + cb - r);
                 let mut ta: Vec<(VK, usize, FOf<G>)> = handles.iter().zip(da.iter()).map(|(h, co)| { let (k, j) = vkey(h).unwrap(); (k, j, *co) }).collect();
                 let mut tb: Vec<(VK, usize, FOf<G>)> = handles.iter().zip(db.iter()).map(|(h, co)| { let (k, j) = vkey(h).unwrap(); (k, j, *co) }).collect();
                 ta.push((VK::L, i, -FOf::<G>::one()));
